@@ -154,3 +154,14 @@ func VerifAdvClientAck(ackKey *keys.KEMKeyPair, k, cookie []byte, name certs.Nam
 // of /verif inserts the call at the top of that function in the instrumented copy): the
 // simulation hands out a client on a simulated endpoint instead of a real UDP socket.
 var VerifDial func(dialer *net.Dialer, network, address string, config ClientConfig) (*Client, error)
+
+// VerifSetHandshakeLeaf replaces the certificate bytes a client will present in the ClientAuth of the
+// handshake it is running (an attacker who follows the protocol with a certificate blob of its own
+// making).  Called by the simulated network while the client waits for the server's next message.
+func (c *Client) VerifSetHandshakeLeaf(leaf []byte) bool {
+	if c.hs == nil {
+		return false
+	}
+	c.hs.leaf = leaf
+	return true
+}
